@@ -22,6 +22,7 @@ pub fn def() -> PropDef {
         block: 1,
         flavours: &["tokio"],
         outcome: None,
+        extra_profiles: &[],
     }
 }
 
@@ -274,7 +275,7 @@ pub fn check(v: &View) -> Vec<Violation> {
             if a.dead.is_some() {
                 crate::log::probe("c05_last_drop_drain_checked");
                 for o in v.ops.iter().filter(|o| o.target == Some(aidx) && matches!(o.inner, Op::Send { .. } | Op::ForceSend { .. }) && matches!(o.res, Some(Res::Ok))) {
-                    if o.end.unwrap() < t0 && spec.timeout.is_none() {
+                    if o.end.unwrap() < t0 && spec.effective_timeout().is_none() {
                         let id = o.msg_id().unwrap();
                         if !v.cbs_of(a).any(|c| c.id == id && c.cb == Cb::Msg && c.exit.is_some()) {
                             out.push(violation(P, "accepted-message-lost-at-last-drop", &format!("{:?}", o.hk.unwrap()), format!("actor {aidx}: message {id} accepted at seq {} before the last strong handle went away at {t0} was never handled", o.end.unwrap())));
